@@ -700,11 +700,19 @@ func (msc *MinerSmartContract) shareSignsOrShares(t *transaction.Transaction,
 			"getting miners DKG list %v", err)
 	}
 
+	if _, ok = dmn.SimpleNodes[t.ClientID]; !ok {
+		return "", common.NewError("share_signs_or_shares",
+			"miner not part of dkg set")
+	}
+
 	var sos = block.NewShareOrSigns()
 	if err = sos.Decode(inputData); err != nil {
 		return "", common.NewErrorf("share_signs_or_shares",
 			"decoding input %v", err)
 	}
+
+	// revealed shares are checked against the sender's own mpk, whatever id the input names
+	sos.ID = t.ClientID
 
 	if len(sos.ShareOrSigns) < dmn.K-1 {
 		return "", common.NewErrorf("share_signs_or_shares",
